@@ -27,8 +27,11 @@ type c12ConcScenario struct {
 	Accounts int    `json:"accounts"` // one thread per account, each delivers the commit of its generation
 }
 
-func c12ConcScenarios() []c12ConcScenario {
-	return []c12ConcScenario{{"commit A || commit B", 2}, {"commit A || commit B || commit C", 3}}
+func c12ConcScenarios(thorough bool) []c12ConcScenario {
+	if thorough {
+		return []c12ConcScenario{{"commit A || commit B", 2}, {"commit A || commit B || commit C", 3}}
+	}
+	return []c12ConcScenario{{"commit A || commit B", 2}}
 }
 
 type c12ConcEnv struct {
@@ -183,13 +186,10 @@ func c12Concurrent(run *ev.Run, deadline time.Time) (map[string]any, error) {
 	defer env.close()
 	per := map[string]any{}
 	execsTotal, allDone := 0, 0
-	for _, scn := range c12ConcScenarios() {
+	for _, scn := range c12ConcScenarios(time.Until(deadline) > 3*time.Minute) {
 		var class string
 		mk := env.scenario(scn, &class)
-		d := time.Now().Add(60 * time.Second)
-		if d.After(deadline) {
-			d = deadline
-		}
+		d := deadline
 		st, viols, err := sched.ExploreAll(mk, d, func(x *sched.Exec) string { return class })
 		if err != nil {
 			return nil, fmt.Errorf("scenario %s: %w", scn.Name, err)
@@ -223,7 +223,7 @@ func c12Concurrent(run *ev.Run, deadline time.Time) (map[string]any, error) {
 		}
 	}
 	return map[string]any{"scenarios": len(per), "scenarios_with_all_interleavings_explored": allDone, "executions": execsTotal, "per_scenario": per,
-		"rule": "two or three generations of different account names in one wallet are brought to the point where their commit succeeds on a real instance; the commits are delivered at the same time, every interleaving at the granularity of the generations-table lock (sync.RWMutex routed through the scheduler's shim) and of the wallet store's operations; every commit that succeeds must leave the account in the wallet store under its name with the returned composite key, and usable by the instance"}, nil
+		"rule": "two (thorough tier: also three) generations of different account names in one wallet are brought to the point where their commit succeeds on a real instance; the commits are delivered at the same time, every interleaving at the granularity of the generations-table lock (sync.RWMutex routed through the scheduler's shim) and of the wallet store's operations; every commit that succeeds must leave the account in the wallet store under its name with the returned composite key, and usable by the instance"}, nil
 }
 
 // c12ReplayConcurrent re-executes one recorded schedule.
